@@ -214,7 +214,18 @@ def _a_generator():
     yield 1
 
 
-def real_value(v, table=TABLE):
+def real_value(v, table=TABLE, share=None):
+    """A real Python value for the abstract value v.  With `share` (a dict) structurally equal containers become ONE
+    object, however often and wherever they occur (aliasing inside a value and across values)."""
+    if share is not None and v["k"] in ("list", "tuple", "set", "dict", "ddict"):
+        key = canon(v)
+        if key not in share:
+            share[key] = _real_value(v, table, share)
+        return share[key]
+    return _real_value(v, table, share)
+
+
+def _real_value(v, table, share):
     k = v["k"]
     if k == "str":
         return resolve_class(v["a"][0]["n"], table)(v["n"]) if v["a"] else v["n"]
@@ -235,15 +246,15 @@ def real_value(v, table=TABLE):
     if k == "genobj":
         return _a_generator()
     if k == "list":
-        return [real_value(e, table) for e in v["a"]]
+        return [real_value(e, table, share) for e in v["a"]]
     if k == "tuple":
-        return tuple(real_value(e, table) for e in v["a"])
+        return tuple(real_value(e, table, share) for e in v["a"])
     if k == "set":
-        return {real_value(e, table) for e in v["a"]}
+        return {real_value(e, table, share) for e in v["a"]}
     if k in ("dict", "ddict"):
         d = {} if k == "dict" else collections.defaultdict(int)
         for p in v["a"]:
-            d[real_value(p["a"][0], table)] = real_value(p["a"][1], table)
+            d[real_value(p["a"][0], table, share)] = real_value(p["a"][1], table, share)
         return d
     raise ValueError("cannot build value of kind %r" % (k,))
 
